@@ -43,7 +43,8 @@ def selftest():
 @st.composite
 def case_strategy(draw):
     c = draw(cases.spacetime_case(
-        kinds=("Wp", "Wp", "Wp", "Wn", "F", "KS", "PP", "FLp", "FL", "Wt0"),
+        kinds=("Wp", "Wp", "Wp", "Wn", "F", "KS", "PP", "FLp", "FL", "Wt0",
+               "KSin"),
         orders_p=(2, 4, 4, 6), orders_n=(2, 4), extra_n=(3, 5),
         np_range=(10, 12), trim=3))
     fam = c["spec"]["family"]
@@ -140,7 +141,7 @@ def test_case(case, note):
     note.cls(fam, case["boundary"], f"p={p}", f"mask={case.get('mask')}",
              f"matter={case['matter']}", f"vac={case['vacuum']}",
              "Lambda!=0" if case["Lambda"] else "Lambda=0",
-             f"nshift={fl['nshift']}")
+             f"nshift={fl['nshift']}", *A.extra_classes(case, ex1))
     h2 = min(fd2.dx, fd2.dy, fd2.dz)
     S1 = float(np.max(np.abs(ex2["dg"]))) + 1e-30
     S2 = A.natural_scale(ex2)
@@ -151,7 +152,7 @@ def test_case(case, note):
         if k not in o1 or k not in o2:
             return
         scale = max(scale, 1e-2)
-        floor = 1e-9 * scale * max(1.0, (0.1 / h2) ** nd)
+        floor = 1e-9 * scale * A.cond(ex2) * max(1.0, (0.1 / h2) ** nd)
         e1, e2 = A.err(o1[k], r1, tr1), A.err(o2[k], r2, tr2)
         ok, q = A.order_ok(e1, e2, p, floor)
         if np.isfinite(q):
@@ -181,8 +182,8 @@ def test_case(case, note):
         g4u[1:, 1:] = ex["gammaup"]
         return -np.einsum('ab...,bc...,c...->a...', g4u, ex["Tdown"],
                           ex["nup"])[1:]
-    cv("rho_n_fromHam", rho1, rho2, S2 / ref4d.KAPPA, 2)
-    cv("fluxup3_n_fromMom", flux(ex1), flux(ex2), S2 / ref4d.KAPPA, 2)
+    cv("rho_n_fromHam", rho1, rho2, S2 / case.get("kappa", ref4d.KAPPA), 2)
+    cv("fluxup3_n_fromMom", flux(ex1), flux(ex2), S2 / case.get("kappa", ref4d.KAPPA), 2)
     if not case["vacuum"]:
         # the matter projections themselves (pure algebra on exact T, or the
         # fluid -> T path for FLRW): round-off level
@@ -224,11 +225,20 @@ def generic_cases():
                     matter="fluid", vacuum=False, trim=3, kw=KW))
     out.append(dict(cases.generic_FL(2, periodic=False, trim=3), Lambda=0.0,
                     form="tensors", matter="fluid", vacuum=False, trim=3, kw=KW))
+    # Einstein's constant set to 1 (documented attribute), matter scaled
+    out.append(dict(cases.generic_W(4), Lambda=0.2, form="components",
+                    matter="Tdown4", vacuum=False, trim=3, kw=KW, kappa=1.0,
+                    first="dts_Gamma_bssnok"))
+    out.append(dict(cases.generic_FL_tiny(4), Lambda=0.0, form="components",
+                    matter="fluid", vacuum=False, trim=3, kw=KW))
+    out.append(dict(cases.generic_KSin(4, trim=3), Lambda=0.0,
+                    form="components", matter="Tdown4", vacuum=False, trim=3,
+                    kw=KW))
     return out
 
 
 def subchecks(tier):
     q = tier == "quick"
-    return [Sub("evolution", case_strategy(), test_case, 32 if q else 2000,
+    return [Sub("evolution", case_strategy(), A.asymptotic(test_case), 32 if q else 2000,
                 generic=generic_cases(), shards=8 if q else 16, max_rounds=2,
                 shrink_quick=False, pregenerate=True)]
